@@ -29,6 +29,8 @@ def run(run, model):
     run.do(c09.dispatch_table, model, "C01.error-dispatch")
     run.do(c05.order_identity, model, "C01.args-order", "C01.args-identity")
     run.do(c05.defaults_rule, model, "C01.defaults")
+    from . import effects
+    run.do(effects.no_memo, model, "C01.no-memo")
     from . import twins
     run.do(twins.helper_dispatch, model, "C01.await-dispatch", "C01.sync-reject")
     run.do(common.kind_uniform, model, "C01.kind-uniform")
